@@ -182,6 +182,25 @@ def run(ctx):
                    '' if not und else 'session state is written at line %d without a dominating liveness test' % und[0].lineno,
                    node=und[0].ast if und else None)
     ctx.floor('C32-LIVE', n_entry, 18, 'public object-bound operations examined')
+    # ---- the flag the tests rely on: SessionCache.close marks the cache dead on every way out (before any early return)
+    cl = repo.fn(CORE, 'SessionCache.close')
+    g = cg.cfg(cl)
+    dead = [n for n in g.nodes if n.kind == 'stmt' and isinstance(n.ast, ast.Assign) and any(dotted(t) == '%s.is_alive' % cl.recv for t in n.ast.targets)
+            and isinstance(n.ast.value, ast.Constant) and n.ast.value.value is False]
+    ok = bool(dead) and g.must_pass_after(g.entry, dead, exits=[g.exit])
+    ctx.ob('C32-CLOSE.close-marks-session-dead-on-every-return', cl, dead[0].ast if dead else cl.node, ok,
+           '' if ok else 'SessionCache.close can return (%s) leaving is_alive == True: objects of the finished session pass every '
+           'liveness test' % g.fmt_path(g.path(g.entry, g.exit, avoid=dead) or []))
+    # nothing else resurrects a cache
+    alive_writes = []
+    for f in funcs:
+        for st in walk_no_nested(f.node):
+            if isinstance(st, ast.Assign) and any(isinstance(t, ast.Attribute) and t.attr == 'is_alive' for t in st.targets):
+                alive_writes.append((f, st))
+    for f, st in alive_writes:
+        val = st.value.value if isinstance(st.value, ast.Constant) else '?'
+        ok = (val is True and f.qual == 'SessionCache.__init__') or (val is False and f.qual == 'SessionCache.close')
+        ctx.ob('C32-CLOSE.is_alive-written-only-by-init-and-close', f, st, ok, '' if ok else 'is_alive is assigned %r in %s' % (val, f.qual), node=st)
 
 
 # the descriptor API of the Attribute hierarchy; its other public-looking methods (validate, update_reverse, db_set, ...)
@@ -190,6 +209,10 @@ ATTR_API = {'__get__', '__set__', '__delete__', 'load', 'copy'}
 MUTATING = {'set', 'delete', 'add', 'remove', 'clear', 'create', '__iadd__', '__isub__', 'flush', 'load', 'update'}
 
 MUTANTS = [
+    dict(id='C32-m8', file='pony/orm/core.py', fn='SessionCache.close',
+         old='        cache.is_alive = False\n        provider = database.provider\n        connection = cache.connection\n        if connection is None: return\n        cache.connection = None\n',
+         new='        provider = database.provider\n        connection = cache.connection\n        if connection is None: return\n        cache.connection = None\n        cache.is_alive = False\n',
+         expect='C32-CLOSE.close-marks'),
     dict(id='C32-m1', file='pony/orm/core.py', fn='SetInstance.count',
          old="        if cache is None or not cache.is_alive: throw_db_session_is_over('read value of', obj, attr)\n", new='',
          expect='SetInstance.count'),
